@@ -289,7 +289,12 @@ def to_u(x, bits):
     lo, hi = bounds(x)
     if lo is not None and lo >= 0: return x
     if hi is not None and hi < 0: return add(x, 1 << bits)
-    return ite(lt(x, 0), add(x, 1 << bits), x)
+    t = ite(lt(x, 0), add(x, 1 << bits), x)
+    if is_sym(t) and lo is not None and hi is not None and lo >= -(1 << (bits - 1)) and hi < (1 << (bits - 1)):
+        # x is a value of the signed `bits`-bit type, so its unsigned reading lies in [0, 2^bits)
+        t.lo = 0 if t.lo is None else max(t.lo, 0)
+        t.hi = (1 << bits) - 1 if t.hi is None else min(t.hi, (1 << bits) - 1)
+    return t
 def in_range_s(x, bits):
     h = 1 << (bits - 1)
     return and_(le(-h, x), le(x, h - 1))
